@@ -343,12 +343,29 @@ def register_timing_tasks(broker: ScriptedBroker, tr: Trace, sc: Dict[str, Any])
     broker.register_task(atask, task_name="atask")
     broker.register_task(stask, task_name="stask")
 
+    # the same bodies under two more registrations: a task of a shared broker (global registry) and a task that is
+    # registered only after the receiver was constructed (dynamic registration)
+    async def shtask(i: int) -> Any:
+        return await atask(i)
+
+    async def latask(i: int) -> Any:
+        return await atask(i)
+
+    shtask.__module__ = __name__
+    latask.__module__ = __name__
+    from taskiq.brokers.shared_broker import AsyncSharedBroker
+
+    AsyncBroker.global_task_registry.pop("shtask", None)
+    broker._vt_shared = AsyncSharedBroker()  # type: ignore[attr-defined]
+    broker._vt_shared.register_task(shtask, task_name="shtask")  # type: ignore[attr-defined]
+    broker._vt_late = lambda: broker.register_task(latask, task_name="latask")  # type: ignore[attr-defined]
+
 
 def build_script(broker: ScriptedBroker, sc: Dict[str, Any]) -> List[Any]:
     script = []
     for i, sp in enumerate(sc["msgs"]):
         kind = sp["kind"]
-        tname = sp.get("task") or ("stask" if kind == "sync" else "atask")
+        tname = sp.get("task") or {"sync": "stask", "shared": "shtask", "late": "latask"}.get(kind, "atask")
         labels = dict(sp.get("labels") or {})
         if sp.get("timeout") is not None:
             labels["timeout"] = sp["timeout"]
@@ -380,6 +397,7 @@ def run_worker(sc: Dict[str, Any], register: Optional[Callable[..., None]] = Non
     mws = build_middlewares(sc.get("mws", []), tr)
     if mws:
         b.add_middlewares(*mws)
+    late = getattr(b, "_vt_late", None)
     b.script = build_script(b, sc)
     r = Receiver(
         b,
@@ -394,6 +412,8 @@ def run_worker(sc: Dict[str, Any], register: Optional[Callable[..., None]] = Non
         run_startup=False,
     )
     res: Dict[str, Any] = {"returned": False, "listen_exc": None, "deadlock": False}
+    if late is not None:
+        late()      # registered after the receiver exists
 
     async def main() -> None:
         ev = asyncio.Event()
@@ -446,6 +466,7 @@ def run_worker(sc: Dict[str, Any], register: Optional[Callable[..., None]] = Non
         finally:
             loop.close()
             asyncio.set_event_loop(None)
+    AsyncBroker.global_task_registry.pop("shtask", None)
     res.setdefault("trace", list(tr.ev))
     res["backend"] = rb
     res["broker"] = b
@@ -459,7 +480,7 @@ def timeout_verdict(sp: Dict[str, Any]) -> str:
     """'none' | 'ok' (finishes before the timeout) | 'tie' (finishes exactly at it: either outcome) | 'timeout'.
     The asynchronous clean-up is part of the coroutine the worker waits for."""
     to = sp.get("timeout")
-    if to is None or sp["kind"] != "async":
+    if to is None or sp["kind"] not in ("async", "shared", "late"):
         return "none"
     total = NEVER if sp.get("out") == "never" else sp["dur"] + sp.get("cleanup", 0)
     if abs(total - float(to)) < 1e-9:
@@ -478,7 +499,7 @@ def per_message(trace: List[List[Any]]) -> Dict[Any, List[Any]]:
 
 
 def is_good(sp: Dict[str, Any]) -> bool:
-    return sp["kind"] in ("async", "sync")
+    return sp["kind"] in ("async", "sync", "shared", "late")
 
 
 def brief_trace(trace: List[List[Any]], limit: int = 60) -> List[Any]:
